@@ -39,7 +39,7 @@ LEVEL_NOTE = "Trusted: jsonschema 4.26; settings are restored in a finally block
 
 @st.composite
 def strategy_(draw, tier):
-    cfg = {"max_depth": 3 if tier == "quick" else 4, "generics": True, "std": True, "methods": True, "lit_in_union": False, "unsup": False}
+    cfg = {"max_depth": 3 if tier == "quick" else 4, "field_conv": True, "generics": True, "std": True, "methods": True, "lit_in_union": False, "unsup": False}
     prog = draw(gen.programs(cfg))
     opts = {"aliaser": pick(draw, ["id", "id", "camel", "pfx"]), "exclude_none": chance(draw, 0.4),
             "exclude_defaults": chance(draw, 0.4), "additional_properties": chance(draw, 0.3)}
